@@ -375,6 +375,8 @@ pub fn run_c12(case: &C12Case, info: &mut CaseInfo) -> Result<(), Fail> {
 #[derive(Serialize, Deserialize, Clone, Debug, PartialEq, Eq, Hash)]
 pub enum Image {
     Random { seed: u64, len: u32 },
+    /// These bytes (byte-level fuzz driver)
+    Raw { bytes: Vec<u8> },
     /// A well-formed image with byte-level mutations `(position selector, value)`
     Mutated { desc: SiiDesc, muts: Vec<(u32, u8)>, truncate_to: Option<u32> },
     /// Header words then hand-crafted category chain: `(type, length words, data words)`
@@ -395,6 +397,7 @@ impl Image {
     pub fn bytes(&self) -> Vec<u8> {
         match self {
             Image::Random { seed, len } => crate::util::bytes_from_seed(*seed, *len as usize),
+            Image::Raw { bytes } => bytes.clone(),
             Image::Mutated { desc, muts, truncate_to } => {
                 let mut b = desc.encode();
 
@@ -537,6 +540,7 @@ pub fn run_c13(case: &C13Case, info: &mut CaseInfo) -> Result<(), Fail> {
 
     info.label(match case.image {
         Image::Random { .. } => "random",
+        Image::Raw { .. } => "raw",
         Image::Mutated { .. } => "mutated-wellformed",
         Image::Chain { .. } => "category-chain",
         Image::Const { .. } => "constant-fill",
